@@ -252,7 +252,16 @@ def run(tier, seed):
         drift += len(rej2)
     cov["model_drift"] = {"strict_only_rejections": drift}
 
+    # ---- the end-to-end composition (spec/System.tla): run() twice on the same object, every script of <= 2 statements, all flags
+    from .. import sys_check as SY
+    sc, ss, st, sn = SY.leg(V, tier, seed, "C14: run() twice, <=2 statements of 15 kinds, silent and raising, flat and grouped", SY.ALL_KINDS, MaxStmts=2 if tier == "quick" else 3,
+                            Silents=SY.bset([True, False]), Groups=SY.bset([False, True]), MaxRuns=2, cap=3000 if tier == "quick" else 30000,
+                            negative=("rerun_accumulates", "Repeat", {"MaxStmts": 2}))
+    cov_system = sc
+    states += ss
+    trans += st
     rc = V.finish()
+    cov["system_composition"] = cov_system
     cov.update({"states": states, "transitions": trans,
                 "traces_validated_against_impl": len(tasks) + n_two + n_valid,
                 "two_object_histories_replayed": n_two, "recorded_traces_accepted_by_TLC": n_valid,
